@@ -4,6 +4,7 @@ import (
 	"database/sql"
 	"flag"
 	"fmt"
+	"runtime"
 	"strings"
 	"time"
 
@@ -74,6 +75,7 @@ func (h *dbHook) Counts() map[string]int {
 }
 
 func (h *dbHook) BeforeStmt(connID int, class string, sqlText string) *simdb.Fault {
+	c20Tick()
 	inline := class == "meta" || class == "connect"
 	h.mu.Lock()
 	h.perConn[connID]++
@@ -90,11 +92,18 @@ func (h *dbHook) BeforeStmt(connID int, class string, sqlText string) *simdb.Fau
 		h.mu.Lock()
 		h.latSeq = h.latSeq*6364136223846793005 + 1442695040888963407
 		d := time.Duration(1+int((h.latSeq>>33)%uint64(h.latencyMs))) * time.Millisecond
-		if class == "meta" {
-			d *= 10 // information_schema look-ups are slow
-		}
 		h.mu.Unlock()
-		time.Sleep(d)
+		if class == "meta" {
+			// the client reads table metadata under its cache lock; a fake-clock
+			// sleep there would freeze the bubble as soon as a second goroutine
+			// waits for that lock (a mutex waiter is not durably blocked), so
+			// these look-ups only give way to the other goroutines
+			for i := 0; i < 3; i++ {
+				runtime.Gosched()
+			}
+		} else {
+			time.Sleep(d)
+		}
 	}
 	h.mu.Lock()
 	defer h.mu.Unlock()
